@@ -192,19 +192,34 @@ Lemma cshape_body_start body e es oi p :
   cshape (map ICmd body ++ IRet e :: IBatch es oi :: map ICmd p) (Some (e_uid e)) (e_id e).
 Proof. constructor. Qed.
 
-Lemma step_wf c t c' : wf c -> step c t = Some c' -> wf c'.
-Proof.
-  unfold wf. intros W H.
-  assert (Hth : forall th, nth_error (threads c) t = Some th -> wf_thread th) by (intros; eapply Forall_nth_error; eauto).
-  step_cases H;
-  match goal with Ht : nth_error (threads c) t = Some ?th |- _ => specialize (Hth _ Ht); unfold wf_thread in Hth end;
-  match goal with Htd : todo ?th = _ :: _ |- _ => rewrite Htd in Hth end;
-  apply shape_cons in Hth;
+Lemma crashed_post_ret c u o : crashed (post_ret c u o) = crashed c.
+Proof. unfold post_ret, add_posted. destruct o; reflexivity. Qed.
+Lemma crashed_cw_ret c t th i two : crashed (cw_ret c t th i two) = crashed c.
+Proof. unfold cw_ret, add_fin. destruct two; reflexivity. Qed.
+
+Ltac more_cases H :=
+  repeat match type of H with
+  | context [match ?x with _ => _ end] => destruct x eqn:?; try discriminate
+  end;
+  try (injection H as H); subst.
+
+Ltac open_step H W th it rest Ht Htd Hsh :=
+  unfold step in H;
+  match type of H with context [nth_error (threads ?c) ?t] =>
+    destruct (nth_error (threads c) t) as [th|] eqn:Ht; try discriminate;
+    pose proof (Forall_nth_error _ _ _ _ W Ht) as Hsh; unfold wf_thread in Hsh;
+    destruct (todo th) as [|it rest] eqn:Htd; try discriminate;
+    apply shape_cons in Hsh
+  end.
+
+Ltac split_all :=
   repeat match goal with
   | H : _ \/ _ |- _ => destruct H
   | H : exists _, _ |- _ => destruct H
   | H : _ /\ _ |- _ => destruct H
-  end; try discriminate;
+  end.
+
+Ltac inj_items :=
   repeat match goal with
   | H : ICmd _ = ICmd _ |- _ => injection H as H; subst
   | H : IRet _ = IRet _ |- _ => injection H as H; subst
@@ -212,15 +227,60 @@ Proof.
   | H : IBatch _ _ = IBatch _ _ |- _ => injection H as H; subst
   | H : IDlAdd _ = IDlAdd _ |- _ => injection H as H; subst
   | H : IDlCancel _ = IDlCancel _ |- _ => injection H as H; subst
-  | H : ISkipSub _ _ = ISkipSub _ _ |- _ => injection H as H; subst
-  | H : IEndCb _ _ = IEndCb _ _ |- _ => injection H as H; subst
-  end; subst;
+  | H : ISkipSub _ _ = ISkipSub _ _ |- _ => injection H as ? ?; subst
+  | H : IEndCb _ _ = IEndCb _ _ |- _ => injection H as ? ?; subst
+  end; subst.
+
+Ltac use_specs :=
   repeat match goal with
-  | H : push_to _ _ _ _ = Some _ |- _ => apply push_to_spec in H; destruct H as (? & ? & -> & ->)
+  | H : push_to _ _ _ _ = Some _ |- _ => apply push_to_spec in H; destruct H as (? & ? & -> & ?)
   | H : interrupt _ _ = Some _ |- _ => apply interrupt_spec in H; destruct H as (? & ? & ->)
   | H : begin_cw _ _ _ _ = _ |- _ => unfold begin_cw in H; injection H as <- <-
-  | H : disp_lock _ _ = _ |- _ => apply disp_lock_ctl in H; destruct H as (? & ? & ?)
-  end;
-  unfold start_entry; rewrite ?threads_post_ret, ?threads_cw_ret; simpl; rewrite ?threads_post_ret, ?threads_cw_ret; simpl in *.
-  all: try (repeat (apply Forall_upd); auto; unfold wf_thread; simpl; eauto 6 with c17).
-Admitted.
+  end.
+
+Definition wfc (c : cfg) : Prop := crashed c = false -> Forall wf_thread (threads c).
+
+Lemma nth_upd_P {A} (P : A -> Prop) l n x m y : Forall P l -> P x -> nth_error (upd l n x) m = Some y -> P y.
+Proof. intros. eapply Forall_nth_error; [apply Forall_upd; eauto | eauto]. Qed.
+
+Lemma read_back l t a tgt x k e y b0 :
+  nth_error l t = Some b0 ->
+  nth_error (upd l t a) tgt = Some x ->
+  nth_error (upd (upd l t a) tgt (fst (push_entry x k e))) t = Some y -> same_ctl y a.
+Proof.
+  intros H0 H1 H2. rewrite nth_error_upd in H2. destruct (Nat.eqb tgt t) eqn:E.
+  - apply Nat.eqb_eq in E; subst. rewrite H1 in H2. injection H2 as <-.
+    erewrite nth_error_upd_same in H1 by eauto. injection H1 as <-. apply push_entry_ctl.
+  - erewrite nth_error_upd_same in H2 by eauto. injection H2 as <-. repeat split.
+Qed.
+
+Lemma step_wf c t c' : crashed c' = false -> Forall wf_thread (threads c) -> step c t = Some c' -> Forall wf_thread (threads c').
+Proof.
+  intros NC W H. open_step H W th it rest Ht Htd Hsh.
+  more_cases H.
+  all: split_all; try discriminate; inj_items.
+  all: use_specs.
+  all: repeat match goal with H : disp_lock _ _ = _ |- _ => apply disp_lock_ctl in H; destruct H as (? & ? & ?) end.
+  all: unfold start_entry in *; rewrite ?threads_post_ret, ?threads_cw_ret, ?crashed_post_ret, ?crashed_cw_ret in *; simpl in *;
+       rewrite ?threads_post_ret, ?threads_cw_ret, ?crashed_post_ret, ?crashed_cw_ret in *; simpl in *; try discriminate.
+  all: try match goal with
+    | H : nth_error (upd (threads _) _ ?a) ?tgt = Some ?x |- _ =>
+        assert (wf_thread a) by (unfold wf_thread; simpl; eauto 6 with c17);
+        assert (wf_thread x) by (eapply (nth_upd_P wf_thread); eauto)
+    end.
+  all: try match goal with
+    | H0 : nth_error (threads ?c) ?t = Some _,
+      H1 : nth_error (upd (threads ?c) ?t ?a) ?tgt = Some ?x,
+      H2 : nth_error (upd (upd (threads ?c) ?t ?a) ?tgt (fst (push_entry ?x ?k ?e))) ?t = Some ?y |- _ =>
+        destruct (read_back _ _ _ _ _ _ _ _ _ H0 H1 H2) as (? & ? & ?); simpl in *
+    end.
+  all: repeat (apply Forall_upd); auto.
+  all: try match goal with |- wf_thread (fst (push_entry ?x ?k ?e)) =>
+         eapply wf_same_ctl; [apply push_entry_ctl | auto] end.
+  all: unfold wf_thread in *; simpl in *;
+       repeat match goal with H : cur _ = _ |- _ => rewrite H | H : proc _ = _ |- _ => rewrite H end;
+       eauto 6 with c17.
+  all: try match goal with H : e_id ?e = _ |- shape (_ ++ IRet ?e :: _) _ _ => rewrite <- H; apply sh_c; constructor end.
+  all: try match goal with H : cshape _ None _ |- _ => apply cshape_none in H; destruct H as (HH & p & ->); rewrite ?HH; apply sh_batch end.
+  all: try match goal with H : e_id ?x = None |- shape _ None (e_id ?x) => rewrite H; apply sh_batch end.
+Qed.
